@@ -38,6 +38,38 @@ func runC19(c *Ctx, r *Report) {
 		"object.(*Environment).create": true, "object.(*Environment).update": true, "object.(*Environment).SetNoChecks": true,
 		"object.(*Environment).makeRef": true, "object.(*Environment).Delete": true,
 	}
+	// a helper that only the allowed writers call (a branch of SetNoChecks moved into its own function) writes on
+	// their behalf: fixpoint over the static callers, functions used as values excluded
+	partOf := map[*ssa.Function]string{} // helper -> the allowed writer it belongs to
+	for changed := true; changed; {
+		changed = false
+		for _, fn := range c.ModuleSSAFuncs() {
+			name := ssaFuncName(fn)
+			if allowedWriters[name] || fn.Pkg == nil || shortPkg(fn.Pkg.Pkg) != "object" || fn.Parent() != nil {
+				continue
+			}
+			sites := c.staticCallSites(fn)
+			if len(sites) == 0 {
+				continue
+			}
+			all, owner := true, ""
+			for _, site := range sites {
+				cn := ssaFuncName(site.Parent())
+				if !allowedWriters[cn] {
+					all = false
+				}
+				owner = cn
+				if o, ok := partOf[site.Parent()]; ok {
+					owner = o
+				}
+			}
+			if all {
+				allowedWriters[name] = true
+				partOf[fn] = owner
+				changed = true
+			}
+		}
+	}
 	isStoreMap := func(v ssa.Value) bool {
 		ld, ok := v.(*ssa.UnOp)
 		if !ok {
@@ -88,7 +120,7 @@ func runC19(c *Ctx, r *Report) {
 	constantFn := c.Fn("object", "Constant")
 	for _, fn := range c.ModuleSSAFuncs() {
 		for _, call := range callsIn(fn, create, update) {
-			r.Check(fn.Object() == types.Object(setNoChecks), "C19.R1", ssaFuncName(fn), "call of "+calleeObj(call).Name(), c.Pos(call.Pos()), "create/update called from outside SetNoChecks")
+			r.Check(fn.Object() == types.Object(setNoChecks) || partOf[fn] == ssaFuncName(c.SSAFn(setNoChecks)), "C19.R1", ssaFuncName(fn), "call of "+calleeObj(call).Name(), c.Pos(call.Pos()), "create/update called from outside SetNoChecks")
 		}
 		for _, call := range callsIn(fn, setNoChecks) {
 			if fn.Object() == types.Object(createOrSet) {
